@@ -37,6 +37,81 @@ def fn_short(path):
     return path.replace('<', '').replace('>', '').replace(' as ', '/')
 
 
+def through_aggregate(fl, op):
+    """`(x.k)` / `(*x).k` where x is built by exactly one aggregate (tuple, closure environment, struct literal): the operand the
+    aggregate was given for field k, with the rest of the projection kept; None when this is not that shape"""
+    if op['k'] == 'const':
+        return None
+    l, proj = op['p']['l'], list(op['p']['proj'])
+    i = 0
+    while i < len(proj) and proj[i] == 'deref':
+        i += 1
+    if i >= len(proj) or not isinstance(proj[i], dict) or 'f' not in proj[i]:
+        return None
+    ds = fl.defs.get(l, [])
+    # follow plain moves of the aggregate itself
+    hops = 0
+    while len(ds) == 1 and ds[0][2] == 'assign' and not ds[0][4] and ds[0][3]['k'] in ('use', 'ref') and hops < 6:
+        src = ds[0][3]['ops'][0] if ds[0][3]['k'] == 'use' else {'k': 'copy', 'p': ds[0][3]['p']}
+        if src['k'] == 'const' or [e for e in src['p']['proj'] if e != 'deref']:
+            return None
+        ds = fl.defs.get(src['p']['l'], [])
+        hops += 1
+    if len(ds) != 1 or ds[0][2] != 'assign' or ds[0][4] or ds[0][3]['k'] != 'agg':
+        return None
+    rv = ds[0][3]
+    f = proj[i]['f']
+    if rv.get('ak') == 'adt' and rv.get('variant') not in (0, None) and 'dc' not in str(proj[:i]):
+        pass
+    if f >= len(rv['ops']):
+        return None
+    inner = rv['ops'][f]
+    if inner['k'] == 'const':
+        return inner if i + 1 >= len(proj) else None
+    return {'k': 'copy', 'p': {'l': inner['p']['l'], 'proj': list(inner['p']['proj']) + proj[i + 1:]}}
+
+
+def chase_root(fl, op, stop_at_named=True):
+    """(local, remaining projection) an operand is a plain copy / reference / aggregate field of: single definitions are
+    followed through moves, (re)borrows and the fields of tuples, closure environments and struct literals"""
+    if op['k'] == 'const':
+        return None
+    l, proj = op['p']['l'], list(op['p']['proj'])
+    seen = set()
+    for _ in range(24):
+        if (l, len(proj)) in seen:
+            break
+        seen.add((l, len(proj)))
+        ta = through_aggregate(fl, {'k': 'copy', 'p': {'l': l, 'proj': proj}})
+        if ta is not None:
+            if ta['k'] == 'const':
+                return None
+            l, proj = ta['p']['l'], list(ta['p']['proj'])
+            continue
+        if stop_at_named and fl.body.local_name(l) and not (1 <= l <= fl.body.argc and False):
+            named_copy = False
+            ds = fl.defs.get(l, [])
+            # a named local that is nothing but another local moved into it (parameter of a spliced helper / closure)
+            if len(ds) == 1 and ds[0][2] == 'assign' and not ds[0][4] and ds[0][3]['k'] == 'use' and ds[0][3]['ops'][0]['k'] != 'const':
+                named_copy = True
+            if not named_copy:
+                break
+        ds = fl.defs.get(l, [])
+        if len(ds) != 1 or ds[0][2] != 'assign' or ds[0][4]:
+            break
+        rv = ds[0][3]
+        if rv['k'] in ('use', 'cast') and rv['ops'][0]['k'] != 'const':
+            src = rv['ops'][0]['p']
+            l, proj = src['l'], list(src['proj']) + proj
+        elif rv['k'] == 'ref':
+            src = rv['p']
+            rest = proj[1:] if proj and proj[0] == 'deref' else proj
+            l, proj = src['l'], list(src['proj']) + rest
+        else:
+            break
+    return l, proj
+
+
 def root_user_local(fl, op):
     """index of the user-named local an operand is a plain copy/reference of (None if it is not one)"""
     seen = set()
@@ -44,6 +119,10 @@ def root_user_local(fl, op):
     for _ in range(12):
         if cur['k'] == 'const':
             return None
+        ta = through_aggregate(fl, cur)
+        if ta is not None:
+            cur = ta
+            continue
         l = cur['p']['l']
         if fl.body.local_name(l):
             return l
@@ -79,6 +158,10 @@ def root_name(fl, op):
     for _ in range(12):
         if cur['k'] == 'const':
             return 'const'
+        ta = through_aggregate(fl, cur)
+        if ta is not None:
+            cur = ta
+            continue
         l = cur['p']['l']
         n = fl.body.local_name(l)
         if n:
